@@ -114,7 +114,10 @@ var checks = map[string]Check{
 				for _, c := range []string{"session", "peer"} {
 					j := sched("c08", fmt.Sprintf("dir=%s,closer=%s,yields=1", d, c), 1, 8)
 					if c == "peer" {
-						j.Shards = 16
+						j.Shards = 8
+						if tier != "thorough" {
+							j.Bound = 0 // Peer.Close spawns a closer per session: bound 1 costs ~20 CPU-minutes and is left to the thorough tier
+						}
 					}
 					if tier == "thorough" {
 						j.Bound = 2
